@@ -1,17 +1,16 @@
-"""EsStore (extra) — buffering and flushing of metric records in Rally's metrics stores (esrally/metrics.py).
-
-Specified (specs/EsStore): records are put into the driver's / race control's store (meta-info scopes cluster < node < per-record
-meta_data, relative time since open()/reset_relative_time(), sample type, task / operation fields, race context), move from an
-in-memory store to another store by to_externalizable(clear) + bulk_add, and an EsMetricsStore buffers them until flush()/close()
-hands the buffer to EsClient.bulk_index = guarded(elasticsearch.helpers.bulk): chunks of 5000, every chunk one _bulk request, a
-transient fault restarts the WHOLE batch (10 retries), any other fault raises; the buffer is cleared only after bulk_index returned,
-so a flush that raises KEEPS the whole buffer and the next flush sends all of it again.  open() ensures template and index.
-Invariants: NoLoss / EsNoLoss (no record vanishes; a buffer is dropped only by re-open after a surfaced error), AtMostOnce (no record
-is stored twice in the index), TransferOnce (externalize+bulk_add moves each record exactly once), Intact (records never change after
-put, also on the wire and in requests), ReturnedMeansSent, CloseClears, MetaScopes / MetaData / Times / Fields, OpenOk, RequestOk.
-Deviations of the code (kept as switches, reported as L1): AtMostOnce fails when a _bulk request is partially accepted (per-item 429),
-times out after it was processed, or a later chunk fails - the retry / next flush re-sends accepted documents, which have no _id
-(IdempotentIds); put_doc drops the caller's meta_data when the scope's meta info is empty or level is None (DocMetaAlways).
+"""EsStore (extra) — buffering and flushing of metric records in Rally's metrics stores (esrally/metrics.py), specs/EsStore.
+Specified: records put into the driver's / race control's store carry the meta info of the scopes active at that moment (cluster <
+node < per-record meta_data), relative time since open()/reset_relative_time(), sample type, task/operation fields and the race
+context; to_externalizable(clear) + bulk_add moves them to another store; an EsMetricsStore buffers them until flush()/close() hands
+the buffer to EsClient.bulk_index = guarded(helpers.bulk): chunks of 5000, one _bulk request each, a transient fault restarts the
+WHOLE batch (10 retries), other faults raise.  The buffer is cleared only after bulk_index returned: a flush that raises KEEPS the
+whole buffer and the next flush sends all of it again.  open() ensures index template and index "rally-metrics-YYYY-MM".
+Invariants that hold for the code: NoLoss/EsNoLoss (between calls every record is buffered, in transit or indexed; a buffer is only
+dropped by re-open after a surfaced error), TransferOnce, Intact, ReturnedMeansSent, CloseClears, MetaScopes, Times, Fields, OpenOk,
+RequestOk; exactly-once holds when every _bulk request is indexed completely or not at all and the batch is one chunk.
+Deviations (model switches, reported as L1): AtMostOnce fails when a request is partially accepted (per-item 429), times out after it
+was processed, or a later chunk fails: the retry / next flush re-sends accepted documents, which have no _id (IdempotentIds);
+put_doc drops the caller's meta_data when the scope's meta info is empty or level is None (DocMetaAlways).
 
 Leg M   : TLC on specs/EsStore (flush under every outcome, pipeline, record content, open(); self-tests of both switches).
 Leg S2C : TLC -simulate behaviours are executed on the REAL EsMetricsStore / InMemoryMetricsStore over the real EsClient and the real
@@ -870,6 +869,49 @@ def random_cases(seed, n, group=1, max_ops=40):
     return cases
 
 
+def directed_cases():
+    """A few hand-written executions that every run contains (the situations the module's statement is about)."""
+    ok = {"k": "ok", "bad": [], "v": 0}
+    val = dict(NO_ARGS, kind="value", lvl="cluster", tm="auto", sty="normal", task="t1", op="o1", opt="bulk")
+
+    def opn(s, create=True, how="direct"):
+        return {"op": "Open", "s": s, "how": how, "c": CTXS[0], "create": create, "w": dict(NO_WORLD)}
+
+    def put(s, n=1):
+        return [{"op": "Put", "s": s, "a": val} for _ in range(n)]
+
+    def flush(s, script, refresh=False):
+        return {"op": "Flush", "s": s, "refresh": refresh, "script": script, "rscript": "ok"}
+
+    t = lambda k, v=0: {"k": k, "bad": [], "v": v}  # noqa: E731
+    cases = [
+        # a later chunk fails transiently: the retry sends the first chunk again
+        {"name": "second-chunk-transient", "types": "eses", "group": GROUP, "ops": [opn("rc")] + put("rc", 3) + [flush("rc", [ok, t("reqT"), ok, ok]), {"op": "Close", "s": "rc", "script": [], "rscript": "ok"}]},
+        # retries exhausted (11 failed attempts, nothing indexed): the flush raises, the buffer is kept, the next flush delivers everything exactly once
+        {"name": "exhausted-then-ok", "types": "eses", "group": 1, "ops": [opn("rc")] + put("rc", 2) + [flush("rc", [t("reqT", i) for i in range(REAL_RETRIES + 1)]), *put("rc", 1), flush("rc", [ok], True)]},
+        # non-retryable fault: raises at once, buffer kept, close() delivers
+        {"name": "fatal-then-close", "types": "eses", "group": 1, "ops": [opn("rc")] + put("rc", 2) + [flush("rc", [t("reqF")]), {"op": "Close", "s": "rc", "script": [ok], "rscript": "ok"}]},
+        # close() raises: the store is closed, the buffer still holds the records; re-opening the store drops them
+        {"name": "close-raises-reopen-drops", "types": "eses", "group": 1, "ops": [opn("rc")] + put("rc", 2) + [{"op": "Close", "s": "rc", "script": [t("reqF", 1)], "rscript": "ok"}, opn("rc", create=False), flush("rc", [], True)]},
+        # the pipeline between driver and race control, twice, then one flush
+        {
+            "name": "pipeline",
+            "types": "memes",
+            "group": 1,
+            "ops": [opn("rc"), opn("drv", how="ctx")]
+            + put("drv", 2)
+            + [{"op": "Ext", "s": "drv", "clear": True}]
+            + put("drv", 1)
+            + [{"op": "Ext", "s": "drv", "clear": True}, {"op": "BulkAdd", "s": "rc"}, {"op": "BulkAdd", "s": "rc"}, flush("rc", [t("reqT", 1), ok], True), {"op": "Close", "s": "drv", "script": [], "rscript": "ok"}],
+        },
+        # refresh after a successful bulk fails: the flush raises but the buffer is already empty - nothing is sent twice
+        {"name": "refresh-fails", "types": "eses", "group": 1, "ops": [opn("rc")] + put("rc", 1) + [{"op": "Flush", "s": "rc", "refresh": True, "script": [ok], "rscript": "fatal"}, flush("rc", [], False)]},
+    ]
+    for c in cases:
+        c["src"] = "directed:" + c.pop("name")
+    return cases
+
+
 # ---------------------------------------------------------------------------------------------------
 # validation
 # ---------------------------------------------------------------------------------------------------
@@ -996,9 +1038,9 @@ def run(ctx, out):
     ]
     quick = ctx.quick
     # ---- Leg M
-    for cfg, expect in LEG_M + ([] if quick else [("EsStore.thorough.cfg", None)]):
+    for cfg, expect in LEG_M + ([] if quick else [("EsStore.thorough.cfg", None), ("EsStore.pipe.thorough.cfg", None)]):
         wd = tlc.prepare_workdir("EsStore", "xesstore-mc")
-        res = tlc.run_tlc(wd, "MC_EsStore", cfg, workers=4 if quick else 8, timeout=280 if quick else 1500, allow_violation=True)
+        res = tlc.run_tlc(wd, "MC_EsStore", cfg, workers=1 if expect else 4 if quick else 8, timeout=280 if quick else 1500, allow_violation=True)
         out.add_tlc(res)
         if expect is None:
             if not res.ok:
@@ -1023,6 +1065,14 @@ def run(ctx, out):
     chunked = behaviours_from_tlc(ctx, out, "EsStore.simchunk.cfg", 10 if quick else 150, 40, "eses", GROUP, 14)
     out.note("leg S2C: %d TLC behaviours (multi-chunk, one record = %d documents)" % (len(chunked), GROUP))
     run_cases(chunked, out, "simchunk")
+    directed = directed_cases()
+    run_cases(directed, out, "dir")
+    failing = {}
+    for v in out.violations:
+        if v.case["src"].startswith("directed:"):
+            failing.setdefault(v.case["src"], set()).add(v.clause)
+    out.extra["directed"] = {c["src"]: ("fails " + ",".join(sorted(failing[c["src"]])) if c["src"] in failing else "all invariants hold") for c in directed}
+    out.note("directed executions: %s" % out.extra["directed"])
     rnd = random_cases(ctx.seed + 1, 200 if quick else 4000)
     run_cases(rnd, out, "rnd")
     out.sample({"source": "random", "types": rnd[0]["types"], "ops": rnd[0]["ops"][:10]})
